@@ -178,6 +178,8 @@ func (ex *Exec) intercept(st *State, th *Thread, f *Frame, fn *ssa.Function, arg
 		switch full {
 		case "(*sync.Mutex).Lock", "(*sync.Mutex).Unlock", "(*sync.RWMutex).Lock", "(*sync.RWMutex).Unlock", "(*sync.RWMutex).RLock", "(*sync.RWMutex).RUnlock":
 			return ex.mutexOp(st, th, f, name, args, call, isDefer), true
+		case "(*sync.WaitGroup).Add", "(*sync.WaitGroup).Done", "(*sync.WaitGroup).Wait":
+			return ex.waitGroupOp(st, th, f, name, args, call, isDefer), true
 		}
 	case "sync/atomic":
 		return ex.atomicOp(st, th, f, fn, full, args, call, isDefer)
